@@ -262,6 +262,11 @@ func runGrammarCase(c J, emit func(J)) {
 			f = func() (bool, string) { _, err := gts.AsMolecule(s); return err == nil, "" }
 		case "topology":
 			f = func() (bool, string) { _, err := gts.AsTopology(s); return err == nil, "" }
+		case "gbtext-err", "gbtext-any":
+			// a whole (small) record text: scanned like a file
+			o := scanWithWatchdog(s, 10*time.Second)
+			emit(J{"ev": "str", "case": c["id"], "g": g, "s": s, "outcome": o.Outcome, "detail": o.Detail})
+			continue
 		case "location":
 			f = func() (bool, string) {
 				loc, err := gts.AsLocation(s)
